@@ -262,7 +262,11 @@ where
     for (&x, &w) in arr.iter().zip(weights.iter()) {
         weight_sum += w;
         let x_minus_mean = x - mean;
-        mean += (w / weight_sum) * x_minus_mean;
+        // While the running weight sum is still zero, `w` is zero as well and
+        // the update term is exactly zero (not 0/0).
+        if weight_sum != zero {
+            mean += (w / weight_sum) * x_minus_mean;
+        }
         s += w * x_minus_mean * (x - mean);
     }
     Ok(s / (weight_sum - ddof))
